@@ -230,6 +230,24 @@ func genC12(g *core.Gen) {
 		}
 		emitDec(op, d, pos, size, "")
 	}
+	// lengths around the int64 wrap: pos+size overflows only in a window of a few values
+	// below 2^63 (a guard written as `pos+s > len(data)` passes there and the slice panics)
+	for k := int64(-3); k <= 24; k++ {
+		v := uint64(1)<<63 - uint64(k) // 2^63-k (k<0: above 2^63)
+		for pre := 0; pre <= 9; pre += 3 {
+			d := make([]byte, pre, pre+12)
+			d = append(d, 0xfe)
+			for i := 0; i < 8; i++ {
+				d = append(d, byte(v>>(8*uint(i))))
+			}
+			d = append(d, 1, 2, 3)
+			for _, op := range []string{"lenstr", "skip", "lenint"} {
+				emitDec(op, d, pre, 0, "int64-wrap-window")
+			}
+			emitDec("bytes", d, pre, int(int64(v&(1<<63-1))), "int64-wrap-window")
+			emitDec("bytes", d, pre+10, int(int64(1<<63-1)-k-int64(pre)), "int64-wrap-window")
+		}
+	}
 	if g.Tier != "quick" {
 		// exhaustive small scope: all buffers of length ≤ 3 over a 6-byte alphabet, every offset, every op
 		alpha := []byte{0, 1, 2, 0xfb, 0xfc, 0xfe}
